@@ -434,56 +434,154 @@ structure Seen where
   content : List String
   wire : List String
   outcome : String          -- rate= … dkeep=  as observed
+  toks : List String        -- the observation's tokens
   spans : List SpanIn       -- the variant as sent (paths and wire encodings)
-  inexact : Bool            -- a JSON batch number in exponent spelling was observed as another float64 than it denotes
+  inexact : List String     -- fields whose JSON batch number (exponent spelling) was observed as another float64 than it denotes
 
 structure MSt where
   inp : Inp := {}
   seen : List Seen := []
-
-/-- integers of magnitude ≥ 10^6 a variant carries in an integer encoding / in a float encoding -/
-def largeAs (spans : List SpanIn) (asInt : Bool) : List Int :=
-  spans.flatMap fun s => s.span.data.filterMap fun kw =>
-    let big (n : Int) (d : Nat) (isInt : Bool) : Option Int :=
-      if d == 1 && n.natAbs ≥ 1000000 && isInt == asInt then some n else none
-    match kw.2 with
-    | .mint n | .oint n => big n 1 true
-    | .muint n => big n 1 true
-    | .jnum _ n d | .mf64 n d | .mf32 n d | .odbl n d => big n d false
-    | _ => none
-
-def anyWire (spans : List SpanIn) (p : Path → Wire → Bool) : Bool :=
-  spans.any fun s => s.span.data.any fun kw => p s.span.path kw.2
-
-/-- The wire-encoding class a pair of variants differs by — decided from the *inputs* (which wire
-types were sent over which endpoint), so that an outcome difference between variants that only use
-encodings the partial theorem covers is never attributed to a known class. -/
-def hazard (a b : List SpanIn) (inexact : Bool) : Option String :=
-  let either (p : Path → Wire → Bool) := anyWire a p || anyWire b p
-  if inexact then some "json-batch-number-parse"
-  else if either (fun _ w => match w with | .muint _ => true | _ => false) then some "msgpack-uint-not-numeric"
-  else if either (fun p w => match w with | .mf32 .. => p.entry == .msgpBatch | _ => false) then some "msgpack-float32-not-numeric"
-  else if either (fun p w => match w with | .mbin _ => p.entry == .msgpBatch | _ => false) then some "msgpack-bin-not-string"
-  else
-    let pv (p q : List SpanIn) := (largeAs p true).any fun n => (largeAs q false).contains n
-    if pv a b || pv b a then some "percent-v-large-int" else none
 
 def outcomePart (obs : String) : String :=
   " ".intercalate ((obs.splitOn " ").filter fun t =>
     t.startsWith "rate=" || t.startsWith "keep=" || t.startsWith "reason=" || t.startsWith "key=" ||
     t.startsWith "dk=" || t.startsWith "dr=" || t.startsWith "dkeep=")
 
-/-- a JSON number field whose observed Go value is not the float64 the literal denotes -/
-def jsonInexact (spans : List SpanIn) (obs : String) : Bool :=
+/-- fields whose JSON batch number is observed as a float64 other than the one the literal denotes -/
+def jsonInexact (spans : List SpanIn) (obs : String) : List String :=
   match kv (obs.splitOn " ") "g" with
   | some g =>
-    if g == "-" then false else
-    (spans.zip (g.splitOn "|")).any fun (s, gs) =>
-      (s.span.data.zip (gs.splitOn ",")).any fun (kw, tok) =>
+    if g == "-" then [] else
+    (spans.zip (g.splitOn "|")).flatMap fun (s, gs) =>
+      (s.span.data.zip (gs.splitOn ",")).filterMap fun (kw, tok) =>
         match kw.2 with
-        | .jnum lit n d => s.span.path.entry == .jsonBatch && (lit.contains 'e' || lit.contains 'E') && tok != s!"f:{n}/{d}"
-        | _ => false
-  | none => false
+        | .jnum lit n d =>
+          if s.span.path.entry == .jsonBatch && (lit.contains 'e' || lit.contains 'E') && tok != s!"f:{n}/{d}" then some kw.1 else none
+        | _ => none
+  | none => []
+
+/-! ### which wire-encoding class a field carries in a pair of variants — decided from the inputs -/
+
+/-- integers of magnitude ≥ 10^6 that field `f` carries in an integer encoding / in a float encoding -/
+def largeAs (spans : List SpanIn) (f : String) (asInt : Bool) : List Int :=
+  spans.flatMap fun s => s.span.data.filterMap fun kw =>
+    let big (n : Int) (d : Nat) (isInt : Bool) : Option Int :=
+      if kw.1 == f && d == 1 && n.natAbs ≥ 1000000 && isInt == asInt then some n else none
+    match kw.2 with
+    | .mint n | .oint n => big n 1 true
+    | .muint n => big n 1 true
+    | .jnum _ n d | .mf64 n d | .mf32 n d | .odbl n d => big n d false
+    | _ => none
+
+def fieldWire (spans : List SpanIn) (f : String) (p : Path → Wire → Bool) : Bool :=
+  spans.any fun s => s.span.data.any fun kw => kw.1 == f && p s.span.path kw.2
+
+/-- the classes of encodings outside the partial theorem that field `f` carries in the pair -/
+def fieldClasses (a b : Seen) (f : String) : List String :=
+  let either (p : Path → Wire → Bool) := fieldWire a.spans f p || fieldWire b.spans f p
+  let pv (p q : Seen) := (largeAs p.spans f true).any fun n => (largeAs q.spans f false).contains n
+  (if a.inexact.contains f || b.inexact.contains f then ["json-batch-number-parse"] else []) ++
+  (if either (fun _ w => match w with | .muint _ => true | _ => false) then ["msgpack-uint-not-numeric"] else []) ++
+  (if either (fun p w => match w with | .mf32 .. => p.entry == .msgpBatch | _ => false) then ["msgpack-float32-not-numeric"] else []) ++
+  (if either (fun p w => match w with | .mbin _ => p.entry == .msgpBatch | _ => false) then ["msgpack-bin-not-string"] else []) ++
+  (if pv a b || pv b a then ["percent-v-large-int"] else [])
+
+def dedupS (l : List String) : List String := l.foldl (fun acc x => if acc.contains x then acc else acc ++ [x]) []
+
+/-! ### which code site a condition takes its value through (a static reading of the configuration) -/
+
+/-- `compare` (no matcher installed), the typed conversions `tryConvertToInt/Float`, or
+`convertToString`; `none` for operators that do not look at the value -/
+def condSite (E : Rules.Ext) (c : Rules.Cond) : Option String :=
+  let installed := (Rules.matcherOf E c).isSome
+  match c.op with
+  | .neq | .eq | .gt | .lt | .gte | .lte =>
+    if !installed then some "rules-compare"
+    else match c.dt with
+      | .int | .float => some "rules-typed-conversion"
+      | _ => some "rules-string-coercion"
+  | .contains | .doesNotContain | .startsWith => if installed then some "rules-string-coercion" else none
+  | .regex => some "rules-string-coercion"   -- (whether the pattern compiles is known per evaluation only)
+  | .isIn | .notIn =>
+    if !installed then none
+    else match c.dt with
+      | .int | .float => some "rules-typed-conversion"
+      | _ => some "rules-string-coercion"
+  | _ => none
+
+def bareField (f : String) : String :=
+  if Rules.hasPrefix f Refinery.Gen.Encoding.rootPrefix then Rules.dropPrefix f Refinery.Gen.Encoding.rootPrefix else f
+
+/-- index of the rule a reason string names -/
+def ruleOfReason (rules : List Rules.Rule) (reason : String) : Option Nat :=
+  (List.range rules.length).find? fun i =>
+    match rules[i]? with
+    | some r => let pfx := scopePrefix r.scope ++ r.name
+      reason == pfx || reason.startsWith (pfx ++ ":")
+    | none => false
+
+/-- split a key into the part written for ordinary key fields (ends with the last `•,`) and the rest
+(root-only fields, trace length) -/
+def splitKey (k : String) : String × String :=
+  let parts := k.splitOn "•,"
+  match parts.reverse with
+  | [] => ("", k)
+  | [_] => ("", k)
+  | last :: before => ("•,".intercalate before.reverse ++ "•,", last)
+
+def mkFail (cls site what : String) : Fail :=
+  { prop := "C09", sig := s!"C09:encoding:{cls}:site={site}", what := what }
+
+/-- the failures for one pair of variants carrying the same logical trace with different
+outcomes: one per code site at which the outcomes differ, attributed to a class of encodings only
+when the fields read at that site carry exactly one such class (nothing is reported for a site when
+several classes are involved; `plain-encodings-differ` when none is) -/
+def pairFails (inp : Inp) (p cur : Seen) : List Fail :=
+  let what := s!"same logical trace (t={cur.tid}), outcomes differ: [{p.outcome}] vs [{cur.outcome}]"
+  if p.wire == cur.wire then [{ prop := "C09", sig := "C09:order:permutation-changes-outcome", what := what }] else
+  let get (s : Seen) (k : String) := (kv s.toks k).getD ""
+  let attrib (site : String) (classes : List String) : List Fail :=
+    match dedupS classes with
+    | [] => [mkFail "plain-encodings-differ" site what]
+    | [c] => [mkFail c site what]
+    | _ => []
+  -- the rules sampler
+  let rulesFails : List Fail :=
+    if get p "rate" == get cur "rate" && get p "keep" == get cur "keep" && get p "reason" == get cur "reason" then [] else
+    let ip := ruleOfReason inp.rules (dec (get p "reason"))
+    let ic := ruleOfReason inp.rules (dec (get cur "reason"))
+    if ip == ic then [mkFail "plain-encodings-differ" "rules-decision" what] else
+    let idx := match ip, ic with
+      | some a, some b => min a b
+      | some a, none => a
+      | none, some b => b
+      | none, none => 0
+    match inp.rules[idx]? with
+    | none => [mkFail "plain-encodings-differ" "rules-decision" what]
+    | some r =>
+      let E := extOf inp.g
+      let cands := r.conds.flatMap fun c =>
+        match condSite E c with
+        | some site => ((Rules.effFields c).flatMap fun f => fieldClasses p cur (bareField f)).map fun cls => (cls, site)
+        | none => []
+      let cands := cands.foldl (fun (acc : List (String × String)) x => if acc.contains x then acc else acc ++ [x]) []
+      match cands with
+      | [] => [mkFail "plain-encodings-differ" "rules" what]
+      | [(cls, site)] => [mkFail cls site what]
+      | _ => []
+  -- the dynamic sampler's key
+  let kp := splitKey (dec (get p "dk"))
+  let kc := splitKey (dec (get cur "dk"))
+  let pre := Refinery.Gen.Encoding.rootPrefix
+  let plainFields := inp.keyCfg.fields.filter fun f => !Rules.hasPrefix f pre
+  let rootFields := (inp.keyCfg.fields.filter fun f => Rules.hasPrefix f pre).map bareField
+  let keyFails :=
+    (if kp.1 != kc.1 then attrib "key-field" (plainFields.flatMap (fieldClasses p cur)) else []) ++
+    (if kp.2 != kc.2 then attrib "root-field-key" (rootFields.flatMap (fieldClasses p cur)) else [])
+  let dynFails :=
+    if get p "dk" == get cur "dk" && (get p "dr" != get cur "dr" || get p "dkeep" != get cur "dkeep")
+    then [mkFail "plain-encodings-differ" "dynamic-decision" what] else []
+  rulesFails ++ keyFails ++ dynFails
 
 def encMon (m : MSt) (op : List String) (exts : List (List String)) (obs : Option String) : MSt × List Fail :=
   match applyInput m.inp op exts with
@@ -495,17 +593,12 @@ def encMon (m : MSt) (op : List String) (exts : List (List String)) (obs : Optio
       if !(o.startsWith "rate=") then (m, []) else
       let cur : Seen := { tid := (kv args "t").getD "", seed := (kv args "seed").getD "",
                           content := contentOf m.inp.spans, wire := wireContentOf m.inp.spans,
-                          outcome := outcomePart o, spans := m.inp.spans, inexact := jsonInexact m.inp.spans o }
-      let fails := m.seen.filterMap fun (p : Seen) =>
+                          outcome := outcomePart o, toks := o.splitOn " ", spans := m.inp.spans,
+                          inexact := jsonInexact m.inp.spans o }
+      let fails := m.seen.flatMap fun (p : Seen) =>
         if p.tid == cur.tid && p.seed == cur.seed && p.content == cur.content && p.outcome != cur.outcome then
-          let sig :=
-            if p.wire == cur.wire then "C09:order:permutation-changes-outcome"
-            else match hazard p.spans cur.spans (p.inexact || cur.inexact) with
-              | some h => "C09:encoding:" ++ h
-              | none => "C09:encoding:plain-encodings-differ"
-          some { prop := "C09", sig := sig,
-                 what := s!"same logical trace (t={cur.tid}), outcomes differ: [{p.outcome}] vs [{cur.outcome}]" : Fail }
-        else none
+          pairFails m.inp p cur
+        else []
       -- one report per signature and evaluation
       let fails := fails.foldl (fun (acc : List Fail) f => if acc.any (·.sig == f.sig) then acc else acc ++ [f]) []
       ({ m with seen := m.seen ++ [cur] }, fails)
